@@ -187,7 +187,8 @@ impl Scenario for C11 {
             v.push(Act::RegisterCanonical(2));
         }
         for id in 0..3u8 {
-            for minter in 0..4u8 {
+            for minter in 0..6u8 {
+                if minter >= 4 && id != 0 { continue; }
                 v.push(Act::RemoteDeploy { id, minter });
             }
         }
@@ -297,11 +298,15 @@ impl Scenario for C11 {
                     1 => (addr_xdr(&iw.sc(&iw.users[2])), true, Some(2)),
                     2 => (vec![9, 9, 9], false, None),
                     // well-formed XDR, but of a string, not of an address
-                    _ => (xdr(&sstr("GAAAAAAAAAAAAAAAAAAAAAAAAAAAAAAAAAAAAAAAAAAAAAAAAAAAAWHF")), false, None),
+                    3 => (xdr(&sstr("GAAAAAAAAAAAAAAAAAAAAAAAAAAAAAAAAAAAAAAAAAAAAAAAAAAAAWHF")), false, None),
+                    // 4: no minter, a name that is not UTF-8; 5: no minter, a decimals word with a dirty high byte
+                    _ => (vec![], false, None),
                 };
                 // announced metadata: short for the minter-less request, longer than one ABI word otherwise
-                let (rname, rsym): (Vec<u8>, Vec<u8>) = if *minter == 0 {
+                let (rname, rsym): (Vec<u8>, Vec<u8>) = if *minter == 0 || *minter == 5 {
                     (b"Remote".to_vec(), b"RMT".to_vec())
+                } else if *minter == 4 {
+                    (b"Rem\xffte".to_vec(), b"RMT".to_vec())
                 } else {
                     ("Remote token with a name longer than a word é".as_bytes().to_vec(), b"RMT-SYMBOL-LONGER-THAN-32-BYTES-XX".to_vec())
                 };
@@ -309,6 +314,14 @@ impl Scenario for C11 {
                     chain: X.as_bytes().to_vec(),
                     msg: RMsg::Deploy { token_id: tid, name: rname.clone(), symbol: rsym.clone(), decimals: 6, minter: mbytes },
                 });
+                let mut payload = payload;
+                if *minter == 5 {
+                    // third head word of the wrapper = offset of the inner message; its fifth word is `decimals`
+                    let off = u64::from_be_bytes(payload[88..96].try_into().unwrap()) as usize;
+                    let decimals_word = off + 32 + 4 * 32;
+                    assert_eq!(payload[decimals_word + 31], 6);
+                    payload[decimals_word + 30] = 1;
+                }
                 let mid = format!("rd-{}-{}", id, minter);
                 let pre = w.snap();
                 let ap = iw.approve_delivery(HUB_CHAIN, &mid, HUB_ADDRESS, &iw.its, &payload);
@@ -435,7 +448,7 @@ fn main() {
         let s = C11 { thorough, chains: if thorough { vec!["stellar", "stellar-testnet"] } else { vec!["stellar"] } };
         let mut o = Opts::new(tier, if thorough { 5 } else { 3 });
         o.min_depth = 2;
-        o.rule = "histories over deploy_interchain_token (deployer U0/U1, 2 salts, supply 5/0/-1, minter none / third party / the deployer / the service itself / the all-zero account, 5 metadata shapes incl. decimals 255, 256, empty name, empty symbol, multi-byte; authorised by the deployer or by someone else), register_canonical_token (2 assets, repeated, and the address of an already service-deployed token), remote deploy messages (short metadata / name and symbol longer than 32 bytes; fresh id, id of a local token, id of a canonical registration; minter none / valid / not XDR / XDR of a string); native seats behind all 8 ids. After every new state: token_address / token_manager_type of all 8 ids vs the write-once model, read again after each of three outbound remote deployments tried on a snapshot (either canonical asset by a third party, U0's first token); for every service-deployed token token_id, name, symbol, decimals, owner, deployer balance, is_minter for 5 universe addresses, and an approved inbound transfer executed on a snapshot; ids and addresses from independent keccak/XDR/sha256 derivations".into();
+        o.rule = "histories over deploy_interchain_token (deployer U0/U1, 2 salts, supply 5/0/-1, minter none / third party / the deployer / the service itself / the all-zero account, 5 metadata shapes incl. decimals 255, 256, empty name, empty symbol, multi-byte; authorised by the deployer or by someone else), register_canonical_token (2 assets, repeated, and the address of an already service-deployed token), remote deploy messages (short metadata / name and symbol longer than 32 bytes / a name that is not UTF-8 / a decimals word with a dirty high byte (both refused); fresh id, id of a local token, id of a canonical registration; minter none / valid / not XDR / XDR of a string); native seats behind all 8 ids. After every new state: token_address / token_manager_type of all 8 ids vs the write-once model, read again after each of three outbound remote deployments tried on a snapshot (either canonical asset by a third party, U0's first token); for every service-deployed token token_id, name, symbol, decimals, owner, deployer balance, is_minter for 5 universe addresses, and an approved inbound transfer executed on a snapshot; ids and addresses from independent keccak/XDR/sha256 derivations".into();
         (s, o)
     });
 }
